@@ -5,6 +5,6 @@ fail=0
 for d in seeded/*/; do
   id=$(basename $d); prop=${id%%-*}
   out=$(timeout 900 tools/evalmut.sh /verif/${d}patch.diff $prop)
-  if ! echo "$out" | grep -q "^$prop exit=1"; then echo "NOT CAUGHT: $id: $out"; fail=1; fi
+  if grep -q expected_not_caught $d/meta.json; then continue; fi; if ! echo "$out" | grep -q "^$prop exit=1"; then echo "NOT CAUGHT: $id: $out"; fail=1; fi
 done
 echo "regression done fail=$fail"
